@@ -1090,7 +1090,9 @@ def _find_outer_variant(vc, v):
 def _find_inner_inv(vc, v):
     """the last $k elements of the window ending at i match the last $k needle elements"""
     hay, nd, i, n = v["haystack"], v["needle"], v["i"], v["n"]
-    return vc.forall(0, v["$k"], lambda m: hay[i - m] == nd[n - 1 - m])
+    # stated over the haystack position p (a plain bound variable under hay[.]), so that the
+    # solver's E-matching instantiates it from any ground term hay[t]
+    return vc.forall(i - v["$k"] + 1, i + 1, lambda p: hay[p] == nd[p - (i - n + 1)])
 
 
 def _find_inner_head(vc, v, entering):
@@ -1101,8 +1103,8 @@ def _find_inner_head(vc, v, entering):
         s = vc.stashed("find.skolem")
         if s is not None:
             hay, nd, i, n = v["haystack"], v["needle"], v["i"], v["n"]
-            m = n - 1 - s
-            vc.check(vc.raw(lambda: not (0 <= m and m < v["$k"]) or hay[i - m] == nd[n - 1 - m]), "_find.loop1.inv_instance")
+            p = i - n + 1 + s
+            vc.check(vc.raw(lambda: not (i - v["$k"] < p and p <= i) or hay[p] == nd[p - (i - n + 1)]), "_find.loop1.inv_instance")
 
 
 LOOPS.update(
@@ -1153,7 +1155,7 @@ def _find_post(vc, name, haystack, needle):
     if vc.choice(name + ".found", (True, False)):
         r = vc.int(name + ".index", 0, None)
         vc.assume(r + len(needle) <= len(haystack))
-        vc.assume(vc.forall(0, len(needle), lambda m: haystack[r + m] == needle[m]))
+        vc.assume(vc.forall(r, r + len(needle), lambda p: haystack[p] == needle[p - r]))
         return r
     return None
 
@@ -1175,7 +1177,7 @@ def _assign_option_post(vc, name, entry_options, hdr_options):
     if vc.choice(name + ".shared", (True, False)):
         oi = vc.int(name + ".oi", 0, None)
         vc.assume(oi + len(entry_options) <= len(hdr_options))
-        vc.assume(vc.forall(0, len(entry_options), lambda m: hdr_options[oi + m] == entry_options[m]))
+        vc.assume(vc.forall(oi, oi + len(entry_options), lambda p: hdr_options[p] == entry_options[p - oi]))
     else:
         oi = len(hdr_options)
         hdr_options.extend(entry_options)
@@ -1217,7 +1219,7 @@ def ob_assign_option_post(vc):
     vc.cover("run")
     vc.check_eq(no, len(run), "_assign_option.count_is_run_length")
     vc.check(oi >= 0 and oi + no <= len(hdr), "_assign_option.run_inside_array")
-    vc.check(vc.forall(0, no, lambda m: hdr[oi + m] == run[m]), "_assign_option.array_holds_run_at_index")
+    vc.check(vc.forall(oi, oi + no, lambda p: hdr[p] == run[p - oi]), "_assign_option.array_holds_run_at_index")
     vc.check(len(hdr) >= n0, "_assign_option.array_only_grows")
     vc.check(vc.forall(0, n0, lambda m: hdr[m] == before[m]), "_assign_option.existing_options_keep_their_index")
     vc.check(len(hdr) == n0 or (oi == n0 and len(hdr) == n0 + no), "_assign_option.appends_exactly_the_run_or_nothing")
